@@ -72,8 +72,19 @@ func canonicalStructSize(s Struct) ObjectSize {
 		return ObjectSize{}
 	}
 	var sz ObjectSize
+	// A data section that is not a whole number of words (the struct view
+	// of an element of a 1-, 2- or 4-byte list) ends in a partial word that
+	// Uint64 cannot read: it counts as a word, zero-extended, the way
+	// writePtr copies such a struct.
+	whole := s.size.DataSize &^ (wordSize - 1)
+	for off := whole; off < s.size.DataSize; off++ {
+		if s.Uint8(DataOffset(off)) != 0 {
+			sz.DataSize = whole + wordSize
+			break
+		}
+	}
 	// int32 will not overflow because max struct data size is 2^16 words.
-	for off := int32(s.size.DataSize &^ (wordSize - 1)); off >= 0; off -= int32(wordSize) {
+	for off := int32(whole); sz.DataSize == 0 && off >= 0; off -= int32(wordSize) {
 		if s.Uint64(DataOffset(off)) != 0 {
 			sz.DataSize = Size(off) + wordSize
 			break
